@@ -12,6 +12,7 @@ from vp import gen, probe
 from vp import defaults
 from vp import reuse
 from vp import forms as argforms
+from vp import corners
 
 RULE = ('seeded generator: seeds 0..2^32, signal levels 0..1e12 (Gaussian approximation only for counts >= 1000), frame '
         'shapes square or not, scalar and array inputs, model parameters; negative / > int64 signals for the rejection '
@@ -20,7 +21,7 @@ RULE = ('seeded generator: seeds 0..2^32, signal levels 0..1e12 (Gaussian approx
 ASSUMPTIONS = ['statistical bounds are set at >= 7 sigma of the estimator (false-alarm probability < 1e-11 per test)',
                '"rejects" means raises an exception instead of returning a frame']
 PLAN = {'quick': {'gen': 8}, 'thorough': {'gen': 16, 'tests': 1, 'docs': 1}}
-REQUIRED_BUCKETS = ['defaults', 'reuse', 'forms', 'shot:frame-dtype', 'shot:poisson', 'shot:poisson-large', 'shot:poisson-mixed', 'shot:gaussian-bias', 'shot:reject-negative:bright-frame', 'dark:large-rate', 'dark:near-integer-rate', 'shot:gaussian', 'shot:reject-negative', 'shot:reject-huge', 'shot:reject-array',
+REQUIRED_BUCKETS = ['defaults', 'corners', 'reuse', 'forms', 'shot:frame-dtype', 'shot:poisson', 'shot:poisson-large', 'shot:poisson-mixed', 'shot:gaussian-bias', 'shot:reject-negative:bright-frame', 'dark:large-rate', 'dark:near-integer-rate', 'shot:gaussian', 'shot:reject-negative', 'shot:reject-huge', 'shot:reject-array',
                     'read_noise', 'read_noise:small-frames', 'read_noise:cube', 'dark:nofpn', 'dark:fpn', 'rule07', 'psd:square', 'psd:nonsquare', 'cosmic', 'cosmic:long-side', 'cosmic:very-long-strip', 'fresh-process']
 REQUIRED_ANCHORS = ['anchor:shot_noise', 'anchor:read_noise', 'anchor:dark_current', 'anchor:power_spectrum',
                     'anchor:_cosmic_ray', 'anchor:_nrays']
@@ -73,6 +74,7 @@ def workload(ctx, lentil):
     defaults.run(ctx, lentil, 'C18', 'deterministic')
     reuse.run(ctx, lentil, 'C18', 'deterministic')
     argforms.run(ctx, lentil, 'C18', 'deterministic')
+    corners.run(ctx, lentil, 'C18', 'deterministic')
     rng = ctx.rng
     D = lentil.detector
     log = Log(ctx)
